@@ -414,7 +414,15 @@ func (u *Unit) enterBlock(s *State, f *Frame) bool {
 	cands := u.candidates(f.Fn, f.Block, ord, mods, s, f)
 	// establish
 	u.checkInvariantsInit(s, f, al, spec, ord, cands)
-	// havoc
+	// havoc. The allocation counter first: values held by the havoced cells and heaps may refer to
+	// objects allocated by earlier iterations, so their well-formedness ("every reference is below
+	// the allocation counter") must be stated against the counter as it is at an arbitrary iteration,
+	// not as it was on entry to the loop.
+	if mods.eff.allocs {
+		na := u.fresh(s, "alloc", "Int")
+		s.assume(Ge(na, s.Alloc))
+		s.Alloc = na
+	}
 	for c := range mods.cells {
 		if old, ok := f.Cells[c]; ok {
 			pt := c.Type().(*types.Pointer).Elem()
@@ -436,11 +444,6 @@ func (u *Unit) enterBlock(s *State, f *Frame) bool {
 				}
 			}
 		}
-	}
-	if mods.eff.allocs {
-		na := u.fresh(s, "alloc", "Int")
-		s.assume(Ge(na, s.Alloc))
-		s.Alloc = na
 	}
 	if mods.eff.all {
 		s.DirtyAll = true
